@@ -40,6 +40,8 @@ type LFact struct {
 	X, Y, Z int64
 	A, Bv   int64
 	S       string
+	// one field per (rule, text variant), always 0: a text mentions a variable that no other text mentions
+	WA1, WA2, WB1, WB2, WC1, WC2 int64
 }
 
 // ruleText gives the GRL of rule `name` in text variant t. The variants of one name differ in condition,
@@ -47,11 +49,11 @@ type LFact struct {
 func ruleText(name string, t int) string {
 	switch name {
 	case "A":
-		return fmt.Sprintf(`rule A "A%d" salience %d { when F.X == %d && F.Z == 0 then F.A = %d; Retract("A"); }`, t, t, t, t)
+		return fmt.Sprintf(`rule A "A%d" salience %d { when F.X == %d && F.Z == 0 && F.WA%d == 0 then F.A = %d; Retract("A"); }`, t, t, t, t, t)
 	case "B":
-		return fmt.Sprintf(`rule B "B%d" salience %d { when F.Y == %d && F.Z == 0 then F.Bv = %d; Retract("B"); }`, t, t+2, t, t)
+		return fmt.Sprintf(`rule B "B%d" salience %d { when F.Y == %d && F.Z == 0 && F.WB%d == 0 then F.Bv = %d; Retract("B"); }`, t, t+2, t, t, t)
 	case "C":
-		return fmt.Sprintf(`rule C "C%d" salience %d { when F.X == %d && F.Y == %d then F.A = %d; F.Bv = %d; Retract("C"); }`, t, t+4, t, t, t+10, t+10)
+		return fmt.Sprintf(`rule C "C%d" salience %d { when F.X == %d && F.Y == %d && F.WC%d == 0 then F.A = %d; F.Bv = %d; Retract("C"); }`, t, t+4, t, t, t, t+10, t+10)
 	}
 	panic("unknown rule " + name)
 }
